@@ -11,7 +11,7 @@ pub enum BlobType { Tree, Data }
 pub struct BlobLocation { pub offset: u32, pub length: u32, pub uncompressed_length: Option<u32> }
 #[derive(Clone, Copy, PartialEq, Eq, Structural)]
 pub struct IndexBlob { pub id: BlobId, pub tpe: BlobType, pub location: BlobLocation }
-pub struct IndexPack { pub id: PackId, pub blobs: Vec<IndexBlob>, pub size: Option<u32> }
+pub struct IndexPack { pub id: PackId, pub blobs: Vec<IndexBlob>, pub size: Option<u32>, pub time: Option<u64> }
 
 // cryptographic / codec functions: UNINTERPRETED (collision resistance, authenticity are not reasoned about)
 pub uninterp spec fn SHA(d: Seq<u8>) -> u64;                 // SHA-256 as an id key
